@@ -38,6 +38,19 @@ pub struct Abs {
     pub strict: bool,
     /// when set, `read` fills the caller's buffer (<= 16 bytes) with nondeterministic bytes
     pub nondet_data: bool,
+    /// total number of bytes `read` may still hand out (then it reports end of stream): lets a
+    /// harness stop a parser right after the header field under study
+    pub budget: u64,
+    /// number of `read` calls that may still deliver data (a *concrete* counter, so that the
+    /// symbolic executor itself sees the end of data): later calls report end of stream
+    pub max_calls: u32,
+    pub calls: u32,
+    /// header-parsing mode: a read delivers the whole requested buffer or nothing (keeps the
+    /// count concrete for the symbolic executor; `read_exact` fails either way on a short stream)
+    pub all_or_nothing: bool,
+    /// number of seeks that may still succeed (concrete counter); later seeks fail with an error —
+    /// lets a harness end a parser right after the position arithmetic under study
+    pub max_seeks: u32,
 }
 
 impl Abs {
@@ -50,6 +63,11 @@ impl Abs {
             read_total: 0,
             strict: false,
             nondet_data: false,
+            budget: u64::MAX,
+            max_calls: u32::MAX,
+            calls: 0,
+            all_or_nothing: false,
+            max_seeks: u32::MAX,
         }
     }
     pub fn strict(len: u64, pos: u64) -> Self {
@@ -61,6 +79,13 @@ impl Abs {
 
 impl Seek for Abs {
     fn seek(&mut self, p: SeekFrom) -> io::Result<u64> {
+        // counters move before any branch: CBMC merges states at the function's return, and a
+        // counter that differs between the merged paths would stop being a constant
+        self.seeks += 1;
+        unsafe { SEEKS += 1 };
+        if self.seeks > self.max_seeks {
+            return Err(io::Error::from(io::ErrorKind::InvalidInput));
+        }
         let np: i128 = match p {
             SeekFrom::Start(x) => x as i128,
             SeekFrom::Current(d) => self.pos as i128 + d as i128,
@@ -75,11 +100,9 @@ impl Seek for Abs {
             kani::assume(ok);
         }
         self.pos = np as u64;
-        self.seeks += 1;
         self.last_target = self.pos;
         unsafe {
             LAST_SEEK_TARGET = self.pos;
-            SEEKS += 1;
         }
         Ok(self.pos)
     }
@@ -87,8 +110,17 @@ impl Seek for Abs {
 
 impl Read for Abs {
     fn read(&mut self, buf: &mut [u8]) -> io::Result<usize> {
-        let avail = self.len.saturating_sub(self.pos);
-        let n = core::cmp::min(avail, buf.len() as u64) as usize;
+        self.calls = self.calls.saturating_add(1);
+        if self.calls > self.max_calls {
+            return Ok(0);
+        }
+        let avail = core::cmp::min(self.len.saturating_sub(self.pos), self.budget);
+        let n = if self.all_or_nothing {
+            if avail >= buf.len() as u64 { buf.len() } else { 0 }
+        } else {
+            core::cmp::min(avail, buf.len() as u64) as usize
+        };
+        self.budget -= n as u64;
         if self.nondet_data {
             // only used with small fixed-size header reads
             let mut i = 0;
@@ -156,7 +188,7 @@ impl<'a> crate::layers::traits::LayerFailSafeReader<'a, AbsSrc> for AbsSrc {
 
 /// Recording sink: counts bytes, keeps the first `KEEP` of them, counts flushes; optionally
 /// accepts only a nondeterministic part (>= 1 byte) of each write.
-pub const KEEP: usize = 64;
+pub const KEEP: usize = 44;
 pub struct Rec {
     pub n: u64,
     pub first: [u8; KEEP],
@@ -191,14 +223,10 @@ impl Write for Rec {
         } else {
             buf.len()
         };
-        let mut i = 0;
-        while i < k {
-            let at = self.n as usize + i;
-            if at < KEEP {
-                self.first[at] = buf[i];
-            }
-            i += 1;
-        }
+        // keep only the first KEEP bytes (memcpy: no loop to unwind, whatever the write size)
+        let at = core::cmp::min(self.n, KEEP as u64) as usize;
+        let m = core::cmp::min(k, KEEP - at);
+        self.first[at..at + m].copy_from_slice(&buf[..m]);
         self.n += k as u64;
         self.writes += 1;
         Ok(k)
